@@ -56,33 +56,13 @@ theorem distinct_heads (pre : List (List Bytes)) (row : List Bytes) (post : List
       rw [this] at hd; exact absurd hd.1 (by simp)
     · exact ih hd.2 (fun x hx => hne x (by simp [hx])) r hr
 
-theorem propsItems_rows (ps : List (List Bytes)) (h : propsNorm ps = true) :
-    propsItems ps = ps.flatMap rowItems := by
-  simp only [propsNorm, Bool.and_eq_true, List.all_eq_true, decide_eq_true_eq] at h
-  obtain ⟨hlen, hd⟩ := h
+/-- the written items are the rows' own items, row by row (repo 7b61a9a) -/
+theorem propsItems_eq (ps : List (List Bytes)) : propsItems ps = ps.flatMap rowItems := by
   unfold propsItems
-  -- row by row, with the rows in front of it known
-  suffices hs : ∀ (pre post : List (List Bytes)), ps = pre ++ post →
-      (post.flatMap fun row => match row with
-        | [] => []
-        | key :: _ => (propsGet ps key).map fun v => (key, v)) = post.flatMap rowItems from hs [] ps rfl
-  intro pre post
-  induction post generalizing pre with
-  | nil => intro _; rfl
-  | cons row post ih =>
-    intro hps
-    simp only [List.flatMap_cons]
-    rw [ih (pre ++ [row]) (by simp [hps])]
-    congr 1
-    cases row with
-    | nil => rfl
-    | cons key vs =>
-      have hne : ∀ r ∈ pre, r ≠ [] := by
-        intro r hr e; subst e
-        have := hlen [] (by rw [hps]; simp [hr]); simp at this
-      have hpre := distinct_heads pre (key :: vs) post key vs rfl (by rw [← hps]; exact hd) hne
-      simp only [rowItems]
-      rw [hps, propsGet_row pre post key vs hpre]
+  congr 1
+
+theorem propsItems_rows (ps : List (List Bytes)) (_h : propsNorm ps = true) :
+    propsItems ps = ps.flatMap rowItems := propsItems_eq ps
 
 /-! ### `Props.Add` rebuilds the rows -/
 
